@@ -1385,21 +1385,21 @@ func (m *tqModel) deliveries() {
 							continue // copying the flag (Append)
 						}
 						c.Check(fn == m.htr, "R8", "completed-set:"+FnName(fn), p.InstrPos(in), "objects are marked completed only by a successful result", "objects.completed is set outside handleTransferResult")
-					if fn == m.htr {
-						// ... and there only when the result carries no error: a repeated Add of a completed OID is
-						// answered at once as delivered (deliver:duplicate-after-completion)
-						pass := PassEdges(fn, func(cond ssa.Value) (bool, bool) {
-							e, trueMeansNil, ok := IsErrNilCheck(cond)
-							if ok {
-								if _, f, _, isF := FieldOf(e); isF && f == "Error" {
-									return trueMeansNil, true
+						if fn == m.htr {
+							// ... and there only when the result carries no error: a repeated Add of a completed OID is
+							// answered at once as delivered (deliver:duplicate-after-completion)
+							pass := PassEdges(fn, func(cond ssa.Value) (bool, bool) {
+								e, trueMeansNil, ok := IsErrNilCheck(cond)
+								if ok {
+									if _, f, _, isF := FieldOf(e); isF && f == "Error" {
+										return trueMeansNil, true
+									}
 								}
-							}
-							return false, false
-						})
-						g, path := Guarded(fn.Blocks[0], in, pass, nil)
-						c.Check(g && nonVacuous(pass), "R8", "completed-only-on-success", p.InstrPos(in), "an OID is marked completed only for a result without error", "an OID is marked completed although its transfer failed: a later Add of the same OID is reported to the watchers as transferred while no object was stored: "+path)
-					}
+								return false, false
+							})
+							g, path := Guarded(fn.Blocks[0], in, pass, nil)
+							c.Check(g && nonVacuous(pass), "R8", "completed-only-on-success", p.InstrPos(in), "an OID is marked completed only for a result without error", "an OID is marked completed although its transfer failed: a later Add of the same OID is reported to the watchers as transferred while no object was stored: "+path)
+						}
 					}
 				}
 			}
